@@ -24,8 +24,8 @@ structure SrcWF (t : Src α) : Prop where
 
 /-- The scipy contract for the two layouts `to_hdf5` obtains from `asformat('csr')` /
 `asformat('csc')` after `nnz` has eliminated stored zeros: each is well formed, has the table's
-dimensions and dense content (`D` resp. `Dᵀ`), stores no zero, and both store the same number of
-entries.  Index order inside a vector is free. -/
+dimensions and dense content (`D` resp. `Dᵀ`) and stores no zero.  Index order inside a vector is
+free.  (That both store the same number of entries is derived: `views_sameCount`.) -/
 structure Views [Zero α] [DecidableEq α] (t : Src α) (csr csc : CS α) : Prop where
   csrWF : csr.WF
   csrMajor : csr.nMajor = t.obs.length
@@ -37,7 +37,6 @@ structure Views [Zero α] [DecidableEq α] (t : Src α) (csr csc : CS α) : Prop
   cscMinor : csc.nMinor = t.obs.length
   cscDense : csc.toDense = transposeGrid t.samp.length t.rows
   cscNZ : csc.NoStoredZeros
-  sameCount : csc.data.length = csr.data.length
 
 def MdVal.isAtom : MdVal α → Bool
   | .text _ => true | .int _ => true | .float _ => true | .bool _ => true | _ => false
@@ -651,5 +650,63 @@ def written (c : Utf8) (dc : DateC δ) (t : Src α) (genBy : String) (date : Opt
   { attrs := attrTree dc t genBy date now csr,
     obs := some (axTree c t.obs t.omd t.ogmd csr),
     samp := some (axTree c t.samp t.smd t.sgmd csc) }
+
+section tn
+variable [Zero α] [DecidableEq α]
+
+theorem transposeGrid_cons (m : Nat) (r : List α) (D : List (List α)) (hr : r.length = m) :
+    transposeGrid m (r :: D) = List.zipWith (fun a col => a :: col) r (transposeGrid m D) := by
+  apply List.ext_getElem?
+  intro k
+  rw [transposeGrid_getElem?, List.getElem?_zipWith, transposeGrid_getElem?]
+  by_cases hk : k < m
+  · have hkr : k < r.length := by omega
+    simp [hk, List.getElem?_eq_getElem hkr, colAt_cons r D k hkr]
+  · have : r[k]? = none := List.getElem?_eq_none (by omega)
+    simp [hk, this]
+
+theorem nnz_zipWith_cons (r : List α) (T : List (List α)) (h : r.length = T.length) :
+    nnzGrid (List.zipWith (fun a col => a :: col) r T) = r.countP (fun v => decide (v ≠ 0)) + nnzGrid T := by
+  induction r generalizing T with
+  | nil => cases T <;> simp_all [nnzGrid]
+  | cons a r ih =>
+    cases T with
+    | nil => simp at h
+    | cons c T =>
+      have ih' := ih T (by simpa using h)
+      simp only [nnzGrid, List.zipWith_cons_cons, List.map_cons, List.foldr_cons, List.countP_cons] at ih' ⊢
+      rw [ih']
+      omega
+
+theorem transposeGrid_length (m : Nat) (D : List (List α)) : (transposeGrid m D).length = m := by
+  simp [transposeGrid]
+
+/-- transposition keeps the number of non-zero cells -/
+theorem nnz_transpose (m : Nat) (D : List (List α)) (hm : ∀ r ∈ D, r.length = m) :
+    nnzGrid (transposeGrid m D) = nnzGrid D := by
+  induction D with
+  | nil =>
+    have hz : ∀ (l : List Nat), (l.map (fun _ => (0 : Nat))).foldr (· + ·) 0 = 0 := by
+      intro l; induction l with
+      | nil => rfl
+      | cons x xs ih => rw [List.map_cons, List.foldr_cons, ih]
+    have hcol : ∀ j, colAt ([] : List (List α)) j = [] := fun _ => rfl
+    simp only [transposeGrid, nnzGrid, List.map_map, List.map_nil, List.foldr_nil]
+    have : ((fun r => List.countP (fun v => decide (v ≠ 0)) r) ∘ colAt ([] : List (List α))) = fun _ => 0 := by
+      funext j; simp [hcol]
+    rw [this]; exact hz _
+  | cons r D ih =>
+    have hr := hm r List.mem_cons_self
+    rw [transposeGrid_cons m r D hr, nnz_zipWith_cons r _ (by rw [transposeGrid_length, hr]),
+      ih (fun r hr => hm r (List.mem_cons_of_mem _ hr))]
+    simp [nnzGrid]
+
+/-- both layouts store the same number of entries (derived, not assumed) -/
+theorem views_sameCount (t : Src α) (csr csc : CS α) (hw : SrcWF t) (hv : Views t csr csc) :
+    csc.data.length = csr.data.length := by
+  rw [stored_eq_nnz hv.cscWF hv.cscNZ, stored_eq_nnz hv.csrWF hv.csrNZ, hv.cscDense, hv.csrDense,
+    nnz_transpose _ _ hw.rowLen]
+
+end tn
 
 end Biom.Hdf5
